@@ -116,3 +116,66 @@ func (c *Ctx) mustPrecedeD(a, b ssa.Instruction, d int) bool {
 	}
 	return true
 }
+
+// runLoopVarAlias: under the module's language version (go 1.18: one variable per loop, not per iteration) the address
+// of a loop variable that is stored into something outliving the iteration makes every such entry point at the same
+// variable, i.e. at the last element. Reported for every variable whose cell is created outside a loop, assigned
+// inside it, and whose address is stored / appended / put into a map inside that loop.
+func runLoopVarAlias(c *Ctx, fns []*ssa.Function, rule string) {
+	p := c.P
+	n := 0
+	for _, fn := range fns {
+		loops := naturalLoops(fn)
+		if len(loops) == 0 {
+			continue
+		}
+		for _, b := range fn.Blocks {
+			for _, in := range b.Instrs {
+				a, ok := in.(*ssa.Alloc)
+				if !ok || a.Comment == "" || a.Comment == "complit" || a.Comment == "varargs" || a.Referrers() == nil {
+					continue
+				}
+				for _, l := range loops {
+					if l.Blocks[a.Block()] {
+						continue // created inside the loop: a fresh variable per iteration
+					}
+					assigned := false
+					for _, r := range *a.Referrers() {
+						if st, ok := r.(*ssa.Store); ok && st.Addr == ssa.Value(a) && l.Blocks[st.Block()] {
+							assigned = true
+						}
+					}
+					if !assigned {
+						continue
+					}
+					n++
+					kept := ""
+					for _, r := range *a.Referrers() {
+						ri, _ := r.(ssa.Instruction)
+						if ri == nil || !l.Blocks[ri.Block()] {
+							continue
+						}
+						switch x := r.(type) {
+						case *ssa.Store:
+							if x.Val == ssa.Value(a) {
+								if _, isLocal := x.Addr.(*ssa.Alloc); !isLocal || true {
+									kept = p.ipos(x) + ": &" + a.Comment + " stored into " + describeAddr(x.Addr)
+								}
+							}
+						case *ssa.MapUpdate:
+							if x.Value == ssa.Value(a) || x.Key == ssa.Value(a) {
+								kept = p.ipos(x) + ": &" + a.Comment + " put into a map"
+							}
+						case *ssa.MakeInterface:
+							kept = p.ipos(x) + ": &" + a.Comment + " converted to an interface value"
+						}
+					}
+					if kept != "" {
+						c.Violated(rule, shortName(fn), "address of loop variable "+a.Comment+" kept", p.ipos(a), "the loop assigns "+a.Comment+" on every iteration and keeps its address ("+kept+"); the module's language version gives the loop ONE such variable, so every kept pointer sees the last iteration's value")
+					}
+				}
+			}
+		}
+	}
+	c.Stats[rule+" loop variables examined for address escape"] = n
+}
